@@ -230,6 +230,14 @@ class Interp:
 
     def s_ImportFrom(self, st, env, module):
         full = self.resolve_import(module, st.module, st.level)
+        if len(st.names) == 1 and st.names[0].name == "*":
+            if full.split(".")[0] == "rpylib":
+                m = self.load_module(full)
+                names = m.env.vars.get("__all__") or [k for k in m.env.vars if not k.startswith("_")]
+                for k in names:
+                    env.assign(k, m.env.vars[k])
+                return
+            raise Unsupported(f"star import from {full}")
         for a in st.names:
             name = a.asname or a.name
             if full.split(".")[0] == "rpylib":
